@@ -1,4 +1,5 @@
 import MQ.Model.Core
+import MQ.Model.Hyp
 /-!
 # Trace acceptor: replays a harness trace on `Core` and reports the first difference.
 Import-free (apart from the model) so that it links as a `lean_exe`.
@@ -18,6 +19,9 @@ structure ASt where
   calls : Nat := 0
   pcs : List String := []                     -- distinct pc constructors visited
   rets : List String := []                    -- distinct result kinds
+  nth : Nat := 1                              -- number of threads seen so far
+  outside : Option Nat := none                -- first line at which the run left the region covered by `StepOK` (F1 / F12 trigger)
+  hyp : List String := []                     -- hypotheses of the theorems that failed on this trace (with line numbers)
 
 def parseOrd : String → Ord
   | "rlx" => .rlx | "acq" => .acq | "rel" => .rel | "acqrel" => .acqrel | "sc" => .sc | _ => .na
@@ -190,8 +194,9 @@ def acceptLine (a : ASt) (n : Nat) (line : String) : Except String ASt :=
       | some o =>
           if (a.σ.th t).pc != .idle then fail n s!"call by thread {t} while the model has it at {pcName (a.σ.th t).pc}" else
           let σ' := step a.σ (.call t o g v ng ns)
+          let hv := if eCallOKb a.σ t o g ng (max a.nth (t + 1)) then [] else [s!"ELabelOK-call@{n}"]
           let a' := { a with σ := σ', inCall := upd a.inCall t true, fences := upd a.fences t [],
-                             notes := upd a.notes t [], calls := a.calls + 1 }
+                             notes := upd a.notes t [], calls := a.calls + 1, nth := max a.nth (t + 1), hyp := if a.hyp.length < 8 then a.hyp ++ hv else a.hyp }
           .ok (notePc a' t)
   | "ret" :: t :: rest =>
       let t := t.toNat!
@@ -205,7 +210,8 @@ def acceptLine (a : ASt) (n : Nat) (line : String) : Except String ASt :=
           if a.fences t != x.ff then fail n s!"thread {t}: fences before return differ: code {repr (a.fences t)} model {repr x.ff}" else
           if a.notes t != x.pn then fail n s!"thread {t}: task notifications before return differ: code {a.notes t} model {x.pn}" else
           let rn := resName r
-          .ok { a with σ := step a.σ (.retn t), inCall := upd a.inCall t false, fences := upd a.fences t [],
+          let hv := if eRetOKb a.σ t (max a.nth (t + 1)) then [] else [s!"ELabelOK-retn@{n}"]
+          .ok { a with hyp := (if a.hyp.length < 8 then a.hyp ++ hv else a.hyp), σ := step a.σ (.retn t), inCall := upd a.inCall t false, fences := upd a.fences t [],
                        notes := upd a.notes t [], rets := if a.rets.contains rn then a.rets else rn :: a.rets }
       | p => fail n s!"thread {t} returned '{" ".intercalate rest}' but the model is at pc {pcName p} ({repr p})"
   | ["ev", t, k, w, o1, o2, av, bv, rv, okv, what] =>
@@ -253,7 +259,16 @@ def acceptLine (a : ASt) (n : Nat) (line : String) : Except String ASt :=
         else if o.notes != actual.notes then
           fail n s!"thread {t} at pc {pcn}: task notifications differ: model {o.notes} code {actual.notes}"
         else
-          let a' := { a with σ := σ', events := a.events + 1, fences := upd a.fences t [], notes := upd a.notes t [] }
+          let hv := (hypRun a.σ t (max a.nth (t + 1))).map fun h => s!"{h}@{n}:{pcn}"
+          let a' := { a with σ := σ', events := a.events + 1, fences := upd a.fences t [], notes := upd a.notes t [],
+                             hyp := if a.hyp.length < 8 then a.hyp ++ hv else a.hyp,
+                             outside := if a.outside.isNone && !(triggersOKb a.σ t σ') then some n else a.outside }
+          -- keep lookups cheap: every 64 events the thread table is rebuilt from a snapshot
+          let a' := { a' with nth := max a'.nth (t + 1) }
+          let a' := if a'.events % 64 == 0 then
+              let arr := ((List.range (a'.nth + 1)).map a'.σ.th).toArray
+              { a' with σ := { a'.σ with th := fun u => arr.getD u {} } }
+            else a'
           .ok (notePc a' t)
   | [] => .ok a
   | _ => fail n s!"unparsed line: {line}"
